@@ -427,3 +427,90 @@ def rule_dispatch_operands(cx, tier):
     r.analysed = {"metamap_operator_calls": n}
     r.floor("metamap operator calls with a traced key", n, 12)
     return r
+
+
+# ---------------------------------------------------------------------------------------------
+# R-BASE-WALK
+
+MAP_LOOKUPS = ("get", "get_meta_value", "contains_meta_key", "meta_map", "contains_key")
+
+
+def _origin(o):
+    return o[1] if o[0] == "field" else o
+
+
+def rule_base_walk(cx, tier):
+    """R-BASE-WALK: a loop that climbs a map's `@base` chain looks things up in the map it has climbed to."""
+    r = RuleResult("R-BASE-WALK",
+                   "in a loop that re-assigns a map / value variable from the result of `KMap::get_meta_value` (the climb "
+                   "along `@base`), every KMap lookup inside the loop (`get`, `get_meta_value`, `contains_meta_key`, "
+                   "`meta_map`) is made on the climbing variable, not on a map that does not change in the loop")
+    MAPI = "koto_runtime::KMap::"
+    loops_found = 0
+    lookups_found = 0
+    for fn in cx.F.crate_fns("koto_runtime"):
+        calls = fn.calls()
+        if not any(c.short == MAPI + "get_meta_value" for c in calls):
+            continue
+        cfg = cx.cfg(fn)
+        du = cx.du(fn)
+        loops = {}
+        for (t, h) in cfg.back_edges():
+            loops.setdefault(h, set()).update(cfg.natural_loop(t, h))
+        for head, body in loops.items():
+            # climbing variables: several full definitions, one of them inside the loop from a get_meta_value result
+            walkers = set()
+            for l, defs in du.defs.items():
+                full = [d for d in defs if d[2] in ("assign", "call")]
+                if len(full) < 2:
+                    continue
+                ts = fn.local_tstr(l) or ""
+                if "KMap" not in ts and "KValue" not in ts:
+                    continue
+                for d in full:
+                    if d[0] not in body or d[2] != "assign" or d[3][0] != "use":
+                        continue
+                    src = op_base(d[3][1])
+                    if src is None:
+                        continue
+                    o = _origin(du.root(src))
+                    for _ in range(4):
+                        if o[0] == "call" and o[1].is_("Option::unwrap", "Option::expect", "Try::branch") and o[1].args \
+                                and op_base(o[1].args[0]) is not None:
+                            o = _origin(du.root(op_base(o[1].args[0])))
+                        else:
+                            break
+                    if o[0] == "call" and o[1].short == MAPI + "get_meta_value":
+                        walkers.add(l)
+            if not walkers:
+                continue
+            loops_found += 1
+            names = sorted(fn.local_name(w) or f"_{w}" for w in walkers)
+            for c in calls:
+                if c.bb not in body or not c.short.startswith(MAPI) or c.short[len(MAPI):] not in MAP_LOOKUPS or not c.args:
+                    continue
+                recv = op_base(c.args[0])
+                if recv is None:
+                    continue
+                lookups_found += 1
+                r.instances += 1
+                r.nontrivial += 1
+                o = _origin(du.root(recv))
+                on = o[1] if o[0] in ("multi", "arg") else None
+                ok = on in walkers
+                rname = (fn.local_name(on) if on is not None else None) or (f"arg{on}" if o[0] == "arg" else None)
+                if rname is None:
+                    from .narrow import Sym
+                    rname = Sym(cx, fn).canon(recv).split(".")[0]
+                r.sample({"fn": fn.qual.rsplit("::", 1)[-1], "lookup": c.short[len(MAPI):], "line": c.line, "on": rname,
+                          "climbing": names})
+                if not ok:
+                    # a receiver that is itself only defined inside the loop from a climbing variable is fine
+                    r.add(Finding("R-BASE-WALK", fn.qual, f"{c.short[len(MAPI):]}:on-{rname}",
+                                  f"inside the loop that climbs the `@base` chain through `{', '.join(names)}`, "
+                                  f"`{c.short[len(MAPI):]}` is called on `{rname}`, which the loop never advances: every "
+                                  f"step of the climb repeats the lookup in the same map", fn.file, c.line))
+    r.floor("@base climbing loops", loops_found, 2)
+    r.floor("map lookups inside them", lookups_found, 6)
+    r.analysed = {"loops": loops_found, "lookups": lookups_found}
+    return r
